@@ -238,6 +238,13 @@ class Keep:
                         self.compare(o.values[ki], n.values[kj], f"{what}[{kv!r}]")
                         break
             return
+        if (isinstance(o, ast.Call) and isinstance(n, ast.Call) and ast.dump(o.func) == ast.dump(n.func)
+                and isinstance(o.func, ast.Name) and o.func.id == "defaultdict" and len(o.args) == len(n.args) == 2
+                and not o.keywords and not n.keywords):
+            # defaultdict(factory, {...}): the arguments correspond by position
+            for i in (0, 1):
+                self.compare(o.args[i], n.args[i], f"{what} argument {i}")
+            return
         if isinstance(o, ast.Call) and isinstance(n, ast.Call) and not o.args and not n.args:
             if ast.dump(o.func) != ast.dump(n.func):
                 return
@@ -273,6 +280,9 @@ def _keep_case(draw, tier):
         ]
         for name in ("Point", "Box", "APoint", "PModel", "NT", "AFrozen"):
             opts.append(gv._call(name, ch))
+        # a defaultdict: its content is a dict display like any other
+        opts.append(st.tuples(st.sampled_from(["list", "int"]), st.lists(st.tuples(hs, ch).map(list), min_size=1, max_size=4)).map(
+            lambda t: ["ddict", t[0], t[1]]))
         return st.one_of(opts)
 
     tree = st.recursive(st.one_of(leaves, st.integers(0, 9).map(lambda i: ["int", i])), extend,
